@@ -27,7 +27,7 @@ pub fn value_repr(v: &Value) -> String {
         Value::Boolean(b) => format!("{b}"),
         Value::String(s) => format!("\"{s}\""),
         Value::DateTime(dt) => format!("dt<{dt}>"),
-        Value::FunctionReference(FunctionReference::Normal(n)) => format!("<fn {n}>"),
+        Value::FunctionReference(FunctionReference::Normal(n, _)) => format!("<fn {n}>"),
         Value::FunctionReference(FunctionReference::Foreign(n)) => format!("<ffi {n}>"),
         Value::FunctionReference(FunctionReference::TzConversion(n)) => format!("<tz {n}>"),
         Value::FormatSpecifiers(_) => "<fmt>".into(),
